@@ -199,6 +199,26 @@ func H_C12_truth() {
 	} else {
 		rt.Assert(h.TraceIsSkipping(skipB, 7) && isInt(r, 7), "|| must evaluate and return the right operand when the left is false")
 	}
+	// the same operators when the result is bound to the name of the left operand, in the scope
+	// that owns the variable and inside a closure (the variable belongs to an enclosing scope)
+	for _, form := range []string{`{|| c := c || mark(7); c}()`, `{|| c ||= mark(7); c}()`, `{|| {|| c := c || mark(7); c}()}()`, `cc := c; cc := cc || mark(7); cc`, `cc := c; cc ||= mark(7); cc`} {
+		h.Reset()
+		r = h.EvalNoPanic(form)
+		if want {
+			rt.Assert(h.TraceIsSkipping(skipB) && r == c, "|| must return the left operand itself, without evaluating the right one, when the left is true (result bound to the same name)")
+		} else {
+			rt.Assert(h.TraceIsSkipping(skipB, 7) && isInt(r, 7), "|| must evaluate and return the right operand when the left is false (result bound to the same name)")
+		}
+	}
+	for _, form := range []string{`{|| c := c && mark(7); c}()`, `{|| c &&= mark(7); c}()`, `cc := c; cc &&= mark(7); cc`} {
+		h.Reset()
+		r = h.EvalNoPanic(form)
+		if want {
+			rt.Assert(h.TraceIsSkipping(skipB, 7) && isInt(r, 7), "&& must evaluate and return the right operand when the left is true (result bound to the same name)")
+		} else {
+			rt.Assert(h.TraceIsSkipping(skipB) && r == c, "&& must return the left operand itself, without evaluating the right one, when the left is false (result bound to the same name)")
+		}
+	}
 	// guarded jump statements
 	h.Reset()
 	r = h.EvalNoPanic(`{|| return mark(1) if c; mark(2)}()`)
